@@ -110,6 +110,10 @@ def evaluate__parenthesized_expression(self: XPathToken, context: ta.ContextType
 
             if any(x.symbol == '?' and not x for x in tokens):
                 func.check_arguments_number(len(tokens))
+                if func.label == 'partial function':
+                    # the arguments go to the placeholders that are left, in their order
+                    args = iter(tokens)
+                    tokens = [next(args) if tk.symbol == '?' and not tk else tk for tk in func]
                 func = copy(func)
                 func._items = list(tokens)  # not the list shared with the copied item
                 func.to_partial_function()
